@@ -305,6 +305,7 @@ func c20(c *Ctx) {
 	defer c20hashCoversBodies(c)
 	defer c20eraseVisitsAll(c)
 	defer c20copyOutHandlesEveryMessage(c)
+	defer c20listedWhileNonEmpty(c)
 	P, R := c.P, c.R
 	R.Explain("R20.1", "T-MUST: in Mailbox.Append every path on which AppendRegular returned an error reaches the transaction that calls actionCreateRecoveredMessage, except on the true edge of errors.Is(err, connector.ErrMessageSizeExceedsLimits).")
 	R.Explain("R20.2", "T-CALLERS: AppendRegular is called only by Mailbox.Append; handleAppend appends only through AppendOnlyMailbox.Append and sends the APPENDUID OK only on the nil edge with the UID Append returned.")
@@ -736,4 +737,50 @@ func c20copyOutHandlesEveryMessage(c *Ctx) {
 		}
 	}
 	R.Min("R20.8", "imports in copy/move out of the recovery mailbox", n, 2)
+}
+
+// c20listedWhileNonEmpty (R20.9): the recovery mailbox is listed by its message count.
+func c20listedWhileNonEmpty(c *Ctx) {
+	P, R := c.P, c.R
+	R.Explain("R20.9", "listed exactly while it is non-empty: in State.List every index read made with the recovery mailbox's id (State.user.GetRecoveryMailboxID()) is db.ReadOnly.GetMailboxMessageCount - the quantity that decides whether `Recovered Messages` is hidden is the number of messages it holds, not the number of recent, unseen or otherwise flagged ones (which drops to zero as soon as a client has looked at the mailbox).")
+	f := c.fn("R20.9", "internal/state.(*State).List")
+	if f == nil {
+		return
+	}
+	n := 0
+	for _, g := range c.withPackageHelpers(f, "internal/state", 1) {
+		for _, cs := range engine.Calls(g) {
+			cc := cs.Common()
+			if !cc.IsInvoke() || !(engine.IsNamed(cc.Value.Type(), "db", "ReadOnly") || engine.IsNamed(cc.Value.Type(), "db", "Transaction")) {
+				continue
+			}
+			usesRecoveryID := false
+			for _, a := range cc.Args {
+				if engine.AnyBackward(a, engine.FlowOpts{Loads: true}, func(x ssa.Value) bool {
+					if call, ok := x.(*ssa.Call); ok {
+						if call.Call.IsInvoke() && call.Call.Method.Name() == "GetRecoveryMailboxID" {
+							return true
+						}
+						if sc := call.Call.StaticCallee(); sc != nil && engine.BaseName(sc) == "GetRecoveryMailboxID" {
+							return true
+						}
+					}
+					if fld, ok := x.(*ssa.Field); ok {
+						if call, ok := fld.X.(*ssa.Call); ok && call.Call.IsInvoke() && call.Call.Method.Name() == "GetRecoveryMailboxID" {
+							return true
+						}
+					}
+					return false
+				}) {
+					usesRecoveryID = true
+				}
+			}
+			if !usesRecoveryID {
+				continue
+			}
+			n++
+			R.Check(cc.Method.Name() == "GetMailboxMessageCount", "R20.9", c.name(c.ownerFn(g))+"|read for the recovery mailbox", P.Pos(cs.Pos()), "GetMailboxMessageCount", "State.List decides about the recovery mailbox from "+cc.Method.Name()+" instead of its message count: a non-empty recovery mailbox can disappear from LIST")
+		}
+	}
+	R.Min("R20.9", "index reads for the recovery mailbox in State.List", n, 1)
 }
